@@ -11,8 +11,8 @@ VERIF = os.path.dirname(os.path.dirname(os.path.abspath(__file__)))
 REPO = os.environ.get("BARRIL_REPO", "/repo")
 LEAN_DIR = os.environ.get("BARRIL_LEAN_DIR") or os.path.join(VERIF, "lean")
 GEN_DIR = os.path.join(LEAN_DIR, "Barril", "Gen")
-EVIDENCE_DIR = os.path.join(VERIF, "evidence")
-REPLAY_DIR = os.path.join(VERIF, "replays")
+EVIDENCE_DIR = os.environ.get("BARRIL_EVIDENCE_DIR") or os.path.join(VERIF, "evidence")
+REPLAY_DIR = os.environ.get("BARRIL_REPLAY_DIR") or os.path.join(VERIF, "replays")
 CORPUS_DIR = os.path.join(VERIF, "corpus")
 LOCK_FILE = os.path.join(LEAN_DIR, ".verif.lock")
 
